@@ -186,7 +186,9 @@ private theorem lexeme_tokenStart (k : TokKind) (lex v rest : Text) (hl : Lexeme
     obtain ⟨rfl, _⟩ := hl
     exact ts_cons _ _ (by decide)
 
-private theorem next_complete (n : Nat) (ign lex rest v : Text) (k : TokKind)
+/-- one call of `__next__` on an ignored run followed by a complete lexeme that obeys its follow restriction (public: used by
+    `Props/C01_errors_iff.lean`) -/
+theorem next_complete (n : Nat) (ign lex rest v : Text) (k : TokKind)
     (hrun : IgnRun (lex ++ rest) ign) (hl : Lexeme k lex v) (hf : Follow k lex rest) :
     next n (ign ++ (lex ++ rest)) = .ok (tokAt n k lex rest v, some rest) := by
   have punct : ∀ c, Spec.Lexical.punctuator k = some [c] → lex = [c] → v = [c] →
